@@ -106,19 +106,35 @@ def points_text(rng, pts, style):
     if style in ('comma-space', 'space', 'comma'):
         a, b = {'comma-space': (',', ' '), 'space': (' ', ' '), 'comma': (',', ',')}[style]
         return b.join('%s%s%s' % (fnum(x), a, fnum(y)) for x, y in pts)
-    out = ''
+    out, prev = '', ''
+    def nosep_ok(prev, nxt):
+        # by the SVG number grammar (longest match) the next number may follow directly when it starts
+        # with a sign, or with a decimal point after a number that already has a point or an exponent
+        if nxt[0] in '+-':
+            return True
+        return nxt[0] == '.' and any(ch in prev for ch in '.eE')
     for i, (x, y) in enumerate(pts):
         sx, sy = spell(rng, x), spell(rng, y)
         if i:
             seps = [' ', ',', ' , ', '  ', ', ']
-            if sx.startswith('-'):
-                seps += ['', '']
-            out += rng.choice(seps)
+            if nosep_ok(prev, sx):
+                seps += ['', '', '']
+            sep = rng.choice(seps)
+            if sep == '' and sx[0] != '-':
+                ADJ[0] = True            # "1.5.5" / "1+2": the spellings of KF 'polyline-points-adjacent-number-mispaired'
+            out += sep
         inner = [',', ' ', ' , ', ', ', ' ,']
-        if sy.startswith('-'):
-            inner += ['', '']
-        out += sx + rng.choice(inner) + sy
+        if nosep_ok(sx, sy):
+            inner += ['', '', '']
+        sep = rng.choice(inner)
+        if sep == '' and sy[0] != '-':
+            ADJ[0] = True
+        out += sx + sep + sy
+        prev = sy
     return out
+
+
+ADJ = [False]
 
 
 NICE_ROT = [  # (degrees, cos, sin): cos/sin rational
@@ -517,7 +533,10 @@ def shape_xml(rng, s):
     if k == 'path':
         at.append('d="%s"' % a['d'])
     elif k in ('polyline', 'polygon'):
-        at.append('points="%s"' % points_text(rng, a['points'], a['sep']))
+        ADJ[0] = False
+        s['points_text'] = points_text(rng, a['points'], a['sep'])
+        s['adjacent'] = ADJ[0]
+        at.append('points="%s"' % s['points_text'])
     else:
         for key in ('cx', 'cy', 'r', 'rx', 'ry', 'x', 'y', 'width', 'height', 'x1', 'y1', 'x2', 'y2'):
             if key in a:
@@ -564,14 +583,31 @@ def segs_coq(l):
     return coq_list([seg_coq(s) for s in l]) if l else '(@nil qseg)'
 
 
-def node_coq(n):
+def impl_points(root):
+    """the points of every polyline / polygon as the implementation's own tokeniser (COORD_PAIR_TMPLT,
+    an oracle of the model) returns them; True when some differ from the SVG grammar's reading"""
+    from svgpathtools.svg_to_paths import COORD_PAIR_TMPLT
+    differs = False
+    for s, _, _ in iter_shapes(root):
+        if s['kind'] in ('polyline', 'polygon'):
+            try:
+                s['impl_points'] = [(float(x), float(y)) for x, y in COORD_PAIR_TMPLT.findall(s['points_text'])]
+            except Exception:
+                s['impl_points'] = []
+            if s['impl_points'] != [(float(x), float(y)) for x, y in s['attrs']['points']]:
+                differs = True
+    return differs
+
+
+def node_coq(n, impl=False):
     tf = coq_list([titem_coq(t) for t in n['tf']]) if n['tf'] else '(@nil (@titem Qc))'
     if n['type'] == 'g':
-        kids = coq_list([node_coq(c) for c in n['kids']]) if n['kids'] else '(@nil qnode)'
+        kids = coq_list([node_coq(c, impl) for c in n['kids']]) if n['kids'] else '(@nil qnode)'
         return '(@Group Qc %s %s)' % (tf, kids)
     a = n['attrs']
     d = segs_coq(n.get('segs', []))
-    pts = coq_list([pt_coq(p) for p in a['points']]) if a.get('points') else '(@nil qpt)'
+    ptl = n['impl_points'] if (impl and 'impl_points' in n) else a.get('points')
+    pts = coq_list([pt_coq(p) for p in ptl]) if ptl else '(@nil qpt)'
     at = '(mk_attrs %d %s %s %s %s %s %s %s %s %s %s %s %s %s %s %s)' % (
         n['id'], d, opt(a, 'cx'), opt(a, 'cy'), opt(a, 'r'), opt(a, 'rx'), opt(a, 'ry'),
         opt(a, 'x'), opt(a, 'y'), opt(a, 'width'), opt(a, 'height'),
@@ -718,13 +754,13 @@ def scale_of(o, root):
 
 OKDEF_T = r'''
 From SVP Require Import Model.SvgTree Model.SvgTreeCheck.
-Definition casety : Type := (Qc * qnode * obs)%%type.
+Definition casety : Type := (Qc * qnode * qnode * obs)%%type.
 (* the variant of the code detected by the probes (false = pinned code) *)
 Definition the_cfg : cfg := %s.
 Definition ok (c : casety) : nat := check_case the_cfg c.
 '''
 
-FLAGS = ['rect_attr', 'rect_clamp', 'line_default', 'group_empty', 'sax_line', 'sax_order', 'sax_keep']
+FLAGS = ['rect_attr', 'rect_clamp', 'line_default', 'group_empty', 'sax_line', 'sax_order', 'sax_keep', 'arc_tf']
 
 
 def probe_flags(scratch):
@@ -761,10 +797,22 @@ def probe_flags(scratch):
     fl['sax_order'] = r.get('ok') == 10.0
     r = guarded(lambda: SaxDocument(p2).flatten_all_paths()[0][0].start)
     fl['sax_keep'] = 'ok' in r and r['ok'] != 0j
+    # the Arc branch of transform()
+    def arc_tf():
+        import numpy as np
+        from svgpathtools.path import transform
+        return transform(Arc(0j, 2 + 1j, 0, 1, 0, 4 + 0j), np.array([[1.0, 0, 5], [0, 1, 0], [0, 0, 1]]))
+    fl['arc_tf'] = 'ok' in guarded(arc_tf)
+    # not a model flag (the tokeniser of `points` is an oracle): which reading of "1.5.5 2+3"
+    from svgpathtools.svg_to_paths import COORD_PAIR_TMPLT
+    EXTRA['points_adjacent'] = COORD_PAIR_TMPLT.findall('1.5.5 2+3') == [('1.5', '.5'), ('2', '+3')]
     for n in os.listdir(scratch):
         if n.startswith('p_'):
             os.remove(os.path.join(scratch, n))
     return fl
+
+
+EXTRA = {}
 
 
 def cfg_coq(fl):
@@ -780,6 +828,10 @@ def chain_transforms(chain):
 def classify_elem(route, s, M, chain, what):
     """narrow key for a reference element whose geometry / matrix is not returned"""
     k, a = s['kind'], s['attrs']
+    if k in ('polyline', 'polygon') and what == 'geometry' and \
+            s.get('impl_points') != [(float(x), float(y)) for x, y in a['points']]:
+        # the implementation's tokeniser reads the points attribute differently from the SVG grammar
+        return 'polyline-points-adjacent-number-mispaired' if s.get('adjacent') else 'polyline-points-misparsed'
     if k == 'rect' and ('rx' in a or 'ry' in a):
         if route in ('document', 'group') and not FL.get('rect_attr'):
             return 'doc-rounded-rect-loses-rounding'
@@ -814,6 +866,10 @@ def has_arc(s, route):
 
 def classify_exc(route, r, root, subtree_shapes):
     exc, msg = r['exc'], r['msg']
+    if exc == 'IndexError':
+        for s, _, _ in subtree_shapes:
+            if s['kind'] in ('polyline', 'polygon') and s.get('impl_points') == []:
+                return 'polyline-points-adjacent-number-mispaired' if s.get('adjacent') else 'polyline-points-misparsed'
     if exc == 'TypeError' and 'degrees' in msg and any(has_arc(s, route) and not is_identity(M) for s, M, _ in subtree_shapes):
         return 'arc-transform-typeerror-numpy2'
     if route == 'sax' and exc == 'AttributeError' and "'attrib'" in msg and any(s['kind'] == 'line' for s, _, _ in subtree_shapes):
@@ -833,33 +889,61 @@ def shapes_under(root, pos):
     return list(iter_shapes(n, M, chain))
 
 
-def arc_sample_check(obs_doc, root):
-    """implementation-level predicate for elliptical arcs under a transform (used when the
-    implementation does not raise): every sampled point of the returned arc, mapped back by the
-    inverse CTM, lies on the element's ellipse; end points are the images of the end points"""
-    import numpy as np
-    from svgpathtools import Arc
-    bad = []
-    byid = {i: segs for i, segs, _ in obs_doc}
-    for s, M, _ in iter_shapes(root):
-        if s['kind'] not in ('circle', 'ellipse') or is_identity(M) or s['id'] not in byid:
-            continue
-        a = s['attrs']
+def ref_arcs(s, sees_rx):
+    """the elliptical arcs of the element's reference path (SVG 1.1 9.2-9.4): (cx, cy, rx, ry, theta0, delta)
+    in degrees, rotation 0, in path order"""
+    a, k = s['attrs'], s['kind']
+    if k in ('circle', 'ellipse'):
         cx, cy = a.get('cx', 0.0), a.get('cy', 0.0)
         rx = a.get('r', a.get('rx')); ry = a.get('r', a.get('ry'))
-        Mi = np.linalg.inv(np.array(M))
-        sc = max(1.0, abs(np.array(M)).max()) * max(1.0, abs(cx), abs(cy), rx, ry)
-        for g in byid[s['id']]:
-            if g[0] != 'A':
-                continue
-            arc = Arc(complex(*g[1]), complex(g[2], g[3]), g[4], g[5], g[6], complex(*g[7]))
-            for t in (0.0, 0.25, 0.5, 0.75, 1.0):
-                p = arc.point(t)
-                qv = Mi.dot(np.array([p.real, p.imag, 1.0]))
-                val = ((qv[0] - cx) / rx) ** 2 + ((qv[1] - cy) / ry) ** 2
-                if not abs(val - 1.0) < 1e-6 * sc:
-                    bad.append(s['id']); break
-    return sorted(set(bad))
+        return [(cx, cy, rx, ry, 180.0, -180.0), (cx, cy, rx, ry, 0.0, -180.0)]
+    if k == 'rect' and ('rx' in a or 'ry' in a) and sees_rx:
+        x, y, w, h = a.get('x', 0.0), a.get('y', 0.0), a['width'], a['height']
+        rx = min(a.get('rx', a.get('ry')), w / 2); ry = min(a.get('ry', a.get('rx')), h / 2)
+        return [(x + w - rx, y + ry, rx, ry, -90.0, 90.0), (x + w - rx, y + h - ry, rx, ry, 0.0, 90.0),
+                (x + rx, y + h - ry, rx, ry, 90.0, 90.0), (x + rx, y + ry, rx, ry, 180.0, 90.0)]
+    return []
+
+
+def arc_pointwise_check(obs_list, shapes, sees_rx):
+    """implementation-level judgement of elliptical arcs under a non-identity transform (when transform()
+    returns instead of raising): every sampled point of a returned arc, mapped back by the inverse CTM, lies
+    on the reference arc (on its ellipse AND within its angular range).  Returns (ids failing, arcs judged)"""
+    import numpy as np
+    from svgpathtools import Arc
+    bad, judged = [], 0
+    byid = {e[0]: e[1] for e in obs_list}
+    for s, M, _ in shapes:
+        refs = ref_arcs(s, sees_rx)
+        if not refs or is_identity(M) or s['id'] not in byid:
+            continue
+        Mn = np.array(M)
+        if abs(np.linalg.det(Mn[:2, :2])) < 1e-9:
+            continue
+        Mi = np.linalg.inv(Mn)
+        got = [g for g in byid[s['id']] if g[0] == 'A']
+        if len(got) != len(refs):
+            bad.append(s['id']); continue
+        for g, (cx, cy, rx, ry, th0, dl) in zip(got, refs):
+            judged += 1
+            try:
+                arc = Arc(complex(*g[1]), complex(g[2], g[3]), g[4], g[5], g[6], complex(*g[7]))
+                ok = True
+                for t in (0.0, 0.125, 0.25, 0.5, 0.75, 0.875, 1.0):
+                    p = arc.point(t)
+                    qv = Mi.dot(np.array([p.real, p.imag, 1.0]))
+                    u, v = (qv[0] - cx) / rx, (qv[1] - cy) / ry
+                    if abs(u * u + v * v - 1.0) > 1e-6:
+                        ok = False; break
+                    phi = math.degrees(math.atan2(v, u))
+                    off = ((phi - th0) * (1.0 if dl > 0 else -1.0)) % 360.0
+                    if off > abs(dl) + 1e-4 and off < 360.0 - 1e-4:
+                        ok = False; break
+            except Exception:
+                ok = False
+            if not ok:
+                bad.append(s['id']); break
+    return sorted(set(bad)), judged
 
 
 # ------------------------------------------------------------------- run
@@ -873,7 +957,7 @@ def run(rep, tier, seed, replay=None):
         with common.Scratch() as tmp:
             info = common.std_static(rep, 'C17', (), (), tmp)
             flags = probe_flags(scratch)
-            rep.cov['variant'] = flags
+            rep.cov['variant'] = dict(flags, **EXTRA)
             rep.notes.append('code variant detected by the probes (false = pinned 12ec128 behaviour): %s' % flags)
             OKDEF = OKDEF_T % cfg_coq(flags)
             RECT_ATTR[0] = flags['rect_attr']
@@ -908,10 +992,11 @@ def run(rep, tier, seed, replay=None):
                     f.write(svg)
                 o = observe(fpath, root)
                 os.remove(fpath)
+                tok_differs = impl_points(root)
                 shapes = list(iter_shapes(root))
                 tol = 1e-9 * scale_of(o, root)
                 trees.append({'stream': stream, 'seed': tseed, 'root': root, 'svg': svg, 'obs': o, 'tol': tol,
-                              'shapes': shapes})
+                              'shapes': shapes, 'tok_differs': tok_differs})
                 dist['streams'][stream] = dist['streams'].get(stream, 0) + 1
                 dp = depth_of(root); dist['depth'][dp] = dist['depth'].get(dp, 0) + 1
                 dist['n_shapes'][len(shapes)] = dist['n_shapes'].get(len(shapes), 0) + 1
@@ -944,8 +1029,11 @@ def run(rep, tier, seed, replay=None):
             for s0 in range(0, len(trees), per):
                 idxs = list(range(s0, min(s0 + per, len(trees))))
                 defs = ''.join('Definition tree_%d : qnode := %s.\n' % (ti, node_coq(trees[ti]['root'])) for ti in idxs)
+                defs += ''.join('Definition itree_%d : qnode := %s.\n' % (ti, node_coq(trees[ti]['root'], impl=True))
+                                for ti in idxs if trees[ti]['tok_differs'])
                 mine = [c for c in cases if c[0] in set(idxs)]
-                terms = ['(%s, tree_%d, %s)' % (qc(Fraction(trees[c[0]]['tol'])), c[0], c[3]) for c in mine]
+                terms = ['(%s, tree_%d, %stree_%d, %s)' % (qc(Fraction(trees[c[0]]['tol'])), c[0],
+                                                          'i' if trees[c[0]]['tok_differs'] else '', c[0], c[3]) for c in mine]
                 texts.append(common.CASE_HEADER + OKDEF + defs +
                              'Definition the_cases : list casety :=\n [%s].\n' % ';\n  '.join(terms) +
                              'Eval vm_compute in (run_cases ok the_cases).\n')
@@ -1044,13 +1132,17 @@ def run(rep, tier, seed, replay=None):
             # arcs under transforms when the implementation does not raise: sample check (python, impl level)
             n_arc_checked = 0
             for T in trees:
-                if T['stream'] == 'arcs' and 'ok' in T['obs']['document']:
-                    n_arc_checked += 1
-                    bad = arc_sample_check(T['obs']['document']['ok'], T['root'])
+                for route, r, sees in (('document', T['obs']['document'], FL.get('rect_attr')),
+                                       ('sax', T['obs']['sax_flat'] if FL.get('sax_keep') else {}, True)):
+                    if 'ok' not in r:
+                        continue
+                    bad, judged = arc_pointwise_check(r['ok'], T['shapes'], sees)
+                    n_arc_checked += judged
                     if bad:
-                        rep.violation('C17: transformed elliptical arc is not the image of the element\'s ellipse',
-                                      {'kind': 'impl-predicate', 'tree_seed': T['seed'], 'stream': 'arcs', 'svg': T['svg'],
-                                       'elements': bad}, key='arc-transform-wrong-geometry')
+                        rep.violation('C17: %s: a transformed elliptical arc is not the image of the element\'s arc '
+                                      '(elements %s)' % (route, bad),
+                                      {'kind': 'impl-predicate', 'route': route, 'tree_seed': T['seed'], 'stream': T['stream'],
+                                       'svg': T['svg'], 'elements': bad}, key='arc-transform-wrong-geometry')
             edge_probes(rep, scratch)
             rep.cov['evaluations'] = n_eval
             rep.cov['traces_validated_against_impl'] = len(trees)
@@ -1060,7 +1152,7 @@ def run(rep, tier, seed, replay=None):
                                'every group, svg2paths, SaxDocument parse+flatten+matrices) = one Coq case per (tree, route); '
                                'non-trivial = some shape has >= 2 elements with a transform on its ancestor chain')
             rep.cov['input_distribution'] = dist
-            rep.cov['arc_stream_checked_without_exception'] = n_arc_checked
+            rep.cov['arcs_under_transform_judged_pointwise'] = n_arc_checked
             rep.cov['violation_classes'] = keycount
             rep.violation = _viol
             rep.cov['samples'] = [{'stream': T['stream'], 'svg': T['svg'][:600],
@@ -1076,17 +1168,22 @@ def run(rep, tier, seed, replay=None):
 
 
 def edge_probes(rep, scratch):
-    """fixed inputs for behaviours outside the tree model (attribute inheritance in SaxDocument)"""
-    from svgpathtools import SaxDocument
+    """fixed inputs for behaviours outside the tree model: SaxDocument builds the geometry of a shape
+    from the values inherited from its ancestors (the svg root's width/height become a rect's)"""
+    from svgpathtools import SaxDocument, parse_path
     p = os.path.join(scratch, 'inherit.svg')
     with open(p, 'w') as f:
-        f.write('<svg xmlns="http://www.w3.org/2000/svg" width="100" height="50">'
-                '<g id="G"><rect id="q" x="1" y="1" width="10" height="10"/><path d="M0,0 L1,1"/></g></svg>')
-    r = guarded(lambda: [(v.get('id'), v.get('width'), v['d']) for v in SaxDocument(p).tree])
+        f.write('<svg xmlns="http://www.w3.org/2000/svg" width="100" height="50" x="7">'
+                '<g id="G"><rect id="q" y="1"/><circle id="c" r="2"/></g></svg>')
+    def probe():
+        t = SaxDocument(p).tree
+        return [(v.get('id'), v['d'], [complex(z) for z in parse_path(v['d']).bbox()] if v['d'] else None) for v in t]
+    r = guarded(probe)
     os.remove(p)
     if 'ok' in r:
-        ids = [x[0] for x in r['ok']]
-        if ids != ['q', None]:
-            rep.violation('C17: SaxDocument gives an element the attributes of its ancestors (id of the group, '
-                          'width/height of the svg root): %r' % (r['ok'],),
+        rect = [x for x in r['ok'] if x[0] == 'q']
+        # <rect y="1"/> has no width/height/x: an empty rectangle at (0, 1)
+        if rect and rect[0][2] is not None and (rect[0][2][1] - rect[0][2][0] != 0 or rect[0][2][0] != 0):
+            rep.violation('C17: SaxDocument builds a shape from the attributes of its ancestors (x/width/height of the '
+                          'svg root become the rect\'s): %r' % (rect[0][1],),
                           {'kind': 'edge-probe', 'observed': str(r['ok'])}, key='sax-inherits-ancestor-attributes')
